@@ -109,6 +109,14 @@ def check_task(bag, rng, spec_vars, n_pos):
                 bad("bounds", f"single permutation variable of {n} items: get_bounds() = {lb!r}, {ub!r}")
         else:
             want = owner_bounds(spec_vars)
+            # "equal to that coordinate's own variable bounds": also accept whatever a fresh, identical variable reports
+            for i_, fv_ in enumerate(fresh_flat(spec_vars)):
+                if fv_ is not None:
+                    try:
+                        a_, b_ = fv_.get_bounds()
+                        want[i_] = list(want[i_]) + [(a_, b_)]
+                    except Exception:
+                        pass
             if len(lb) != dim or len(ub) != dim:
                 bad("bounds", f"get_bounds() has {len(lb)}/{len(ub)} entries for dimension {dim}")
             else:
